@@ -212,7 +212,7 @@ class C01(e1.E1Check):
                                     var(rec(("x", opt(I)), ("y", var(I)))), var(opt(S)), F, B, var(B),
                                     union(I, var(I)), var(union(I, S))]
     bounds_quick = dict(N=2, M=2, K=5, enc_k=1, state_cap=18, parts=2)
-    bounds_thorough = dict(N=3, M=2, K=7, enc_k=1, state_cap=10, parts=16)
+    bounds_thorough = dict(N=3, M=2, K=7, enc_k=1, state_cap=3, parts=16)
     rule = ("states = arrays of the type menu x physical encodings (<= enc_k non-canonical nodes); transitions = getitem with "
             "every single item of the full item alphabet (all ints, all start/stop/step ranges, ellipsis, newaxis, all small "
             "integer arrays incl. out-of-range and repeated, 2-d and narrow dtypes, all boolean masks and wrong lengths, "
@@ -267,6 +267,24 @@ class C01(e1.E1Check):
 
     def expected(self, T, tvs, opname, args):
         return refops.getitem(T, tvs, to_ref(args[0]))
+
+    def refusal_ok(self, T, tvs, opname, args, err):
+        """Documented refusal (Slice.cpp): 'advanced indexes separated by basic indexes is not permitted (simple integers are
+        advanced when any arrays are present)'.  Accepted only by this syntactic test on the slice, never because an error
+        was seen: some index array is present, and between two advanced items (arrays, and integers once arrays are
+        present) stands a basic one (range slice, ellipsis, newaxis)."""
+        sl = args[0]
+        items = sl[1:] if isinstance(sl, (list, tuple)) and sl and sl[0] == "t" else [sl]
+
+        def is_array(x):
+            return isinstance(x, (list, tuple)) and len(x) > 1 and x[0] in ("a", "opt", "jag")
+        if not any(is_array(x) for x in items):
+            return False
+        adv = [k for k, x in enumerate(items) if is_array(x) or (isinstance(x, int) and not isinstance(x, bool))]
+        if len(adv) < 2:
+            return False
+        between = items[adv[0]:adv[-1] + 1]
+        return any(x is None or x == "..." or (isinstance(x, (list, tuple)) and x and x[0] == "s") for x in between)
 
     def signature(self, T, tvs, d, names, opname, args, failure):
         sl = args[0]
